@@ -146,6 +146,11 @@ func buildChild(variant string) (string, error) {
 	cmd := exec.Command("go", args...)
 	cmd.Dir = verifDir
 	cmd.Env = goEnv()
+	if variant == "asan" {
+		// recover mode: a report does not end the child, so that one finding does
+		// not mask the rest; the driver counts and classifies the report blocks
+		cmd.Env = append(cmd.Env, "CGO_CFLAGS=-g -O2 -fsanitize-recover=address")
+	}
 	var buf bytes.Buffer
 	cmd.Stdout = &buf
 	cmd.Stderr = &buf
@@ -232,7 +237,7 @@ func runOne(spec *PropSpec, bin string, job Job, base string, out *merged) {
 	case "race":
 		env = append(env, "GORACE=halt_on_error=0 log_path="+base+"/race.log history_size=3")
 	case "asan":
-		env = append(env, "ASAN_OPTIONS=detect_leaks=0:abort_on_error=0:halt_on_error=1:exitcode=66:log_path="+base+"/asan.log")
+		env = append(env, "ASAN_OPTIONS=detect_leaks=0:abort_on_error=0:halt_on_error=0:exitcode=66:log_path="+base+"/asan.log")
 	}
 	cmd.Env = env
 	cmd.SysProcAttr = &syscall.SysProcAttr{Setpgid: true}
@@ -332,7 +337,13 @@ func runOne(spec *PropSpec, bin string, job Job, base string, out *merged) {
 		parseRaceLogs(base, job, out)
 	}
 	if job.Variant == "asan" {
-		parseAsanLogs(base, logPath, job, out)
+		curCase := ""
+		if cb, e := os.ReadFile(resPath + ".cur"); e == nil {
+			cur := map[string]interface{}{}
+			json.Unmarshal(cb, &cur)
+			curCase, _ = cur["case"].(string)
+		}
+		parseAsanLogs(base, logPath, job, out, curCase, res.Done)
 	}
 }
 
